@@ -193,7 +193,7 @@ def r4_limit_before_read(ctx):
     tr = ctx.tracer(follow_callers=False, follow_fields=False)
     for c in lims:
         leaves = tr.origins(rb, c.args[0])
-        ok = any(l.kind == "param" and l.detail.get("name") == "body" for l in leaves) or any(l.kind == "param" and l.detail["idx"] == 2 for l in leaves)
+        ok = any(l.kind == "param" and l.detail["idx"] == 2 for l in leaves)
         R.check(ok, "C07.R4", "read_body:limited-wraps-body", "Limited::new wraps read_body's body parameter", "Limited::new does not wrap the request body", where(c))
     # nobody else consumes the body: every call taking (a copy of) the body param is pin plumbing or Limited::new
     # call_with_service: dispatch dominated by Ok(read_body)
